@@ -126,6 +126,10 @@ impl Family for B5 {
                 }
             }
         }
+        // an unwritable stderr (full disk behind a redirected log, a closed terminal): one run in eight
+        if rng.chance(1, 8) {
+            rules.push(Rule { class: "err".into(), op: 'w', k: Some(rng.below(3) as u32), errno: Some(*rng.pick(&[ENOSPC, EIO, EPIPE])), cap: 0 });
+        }
         // tiny caps on big inputs are slow and add nothing
         if len > 30000 {
             for r in rules.iter_mut() {
@@ -192,6 +196,7 @@ impl Family for B5 {
         let fin = run(&sb, &inv);
         let log = String::from_utf8_lossy(&fin.shim_log).to_string();
         let injected: Vec<i32> = log.lines().filter(|l| l.contains("inject errno=")).filter_map(|l| l.rsplit('=').next().and_then(|x| x.trim().parse().ok())).collect();
+        let stderr_faulted = log.lines().any(|l| l.starts_with("w err") && l.contains("inject"));
         let hard = injected.iter().any(|e| *e != EINTR);
         let eintr = injected.iter().any(|e| *e == EINTR);
         let capped = log.lines().filter(|l| l.ends_with("capped")).count();
@@ -209,7 +214,10 @@ impl Family for B5 {
                 -1
             }
         };
-        if code != 0 && code != 1 && code != -1 {
+        if code == 101 && stderr_faulted {
+            // eprint!/eprintln! panic when stderr cannot be written
+            out.violations.push(viol("C12", "exit_101_stderr_print_failure", format!("{}: a write to stderr failed (errno {:?}) and the tool exited 101 instead of 0 or 1", what, injected)));
+        } else if code != 0 && code != 1 && code != -1 {
             let on_stdout_text = !data_op && injected.iter().any(|_| true) && stderr.contains("failed printing to stdout");
             out.violations.push(viol(
                 "C12",
@@ -217,7 +225,7 @@ impl Family for B5 {
                 format!("{}: exit {} (injected errnos {:?}): {}", what, code, injected, stderr.chars().take(240).collect::<String>()),
             ));
         }
-        if code == 1 && !fin.has_error_line() {
+        if code == 1 && !fin.has_error_line() && !stderr_faulted {
             out.violations.push(viol("C12", "failure_without_error_line", format!("{}: exit 1 without 'Error:'", what)));
         }
         // completion, by operation
